@@ -32,7 +32,7 @@ Theorem C01_subarray_with_offset :
   (forall x y, 0 <= x < nr g -> 0 <= y < nc g -> ~ (r0 <= x < r1 /\ c0 <= y < c1) -> get g x y = k0) ->
   fourier_sum (aslice g r0 r1 c0 c1) ar ac (offr + slice_off r0 r1 (nr g)) (offc + slice_off c0 c1 (nc g)) U V
   = fourier_sum g ar ac offr offc U V.
-Proof. exact fourier_sum_subarray. Qed.
+Proof. exact (fun S R => fourier_sum_subarray S R (fun _ => k0)). Qed.
 Print Assumptions C01_subarray_with_offset.
 
 (* writing into a caller-supplied buffer: same values as a fresh allocation, independent of the
